@@ -9,6 +9,7 @@ from . import rules_param as PA
 from . import rules_pchk as K
 from . import rules_own as O
 from . import rules_kernels as KN
+from . import rules_flow as F
 
 PROPS = {}
 MAIN3 = [1, 2, 3]        # RS-2^8, RS-2^m, LDPC-Staircase
@@ -51,6 +52,7 @@ def c01(ctx):
         K.r_extra_mark(ctx, prog)
         K.r_nullfeed(ctx, prog)
         D.r_it_step3(ctx, prog)
+        F.r_ro_flow(ctx, prog, MAIN3)
         KN.r_kernel_shape(ctx, prog)
         KN.r_kea(ctx, prog, list(range(0, 2 * KN.P + 9)), [0, 1, 2, 3, 4, 5, 7, 8, 9, 12, 13, 16, 20])
     return dict(
@@ -394,3 +396,108 @@ def c13(ctx):
                  'written', 'every stored byte equals the byte-wise definition', 'alignment independence (no address enters control flow)'],
         not_decided=['unaligned 64-bit accesses are a platform matter'],
         extra={'abstract_runs': runs})
+
+
+from . import rules_flow as F
+
+ALL4 = [1, 2, 3, 5]
+
+
+@prop('C03')
+def c03(ctx):
+    for prog in programs(ctx):
+        D.r_setavail(ctx, prog, [3])
+        F.r_ml_pipeline(ctx, prog)
+        D.r_finish_truth(ctx, prog, [3])
+        MX.r_pairswap(ctx, prog)
+        MX.r_scratch_reset(ctx, prog)
+    return dict(
+        explanation='Mechanism only. R-SETAVAIL: the bulk submission API is n per-symbol submissions, so the outcome cannot depend on the '
+        'API. R-ML-PIPELINE: every path of the ML routine to OK through the solver passes, in order, the injection of all k source '
+        'slots and all n-k repair slots, the creation of the simplified system, the conversion to dense, the solver and the write-back '
+        'over all k slots. R-FINISH-TRUTH: the status is OK only when complete and FAILURE only after a negative completion test. '
+        'R-PAIRSWAP / R-SCRATCH-RESET: the solver keeps right-hand sides with their rows and starts from an empty scratch list.',
+        decides=['API/order-independence mechanism; completeness of the injection and write-back stages; status/completion agreement'],
+        not_decided=['"succeeds iff the source symbols are uniquely determined": a rank condition; the give-up test, pivot search and '
+                     'back-substitution are right or wrong by their values, no structural clause of it exists'])
+
+
+@prop('C06')
+def c06(ctx):
+    for prog in programs(ctx):
+        T.r_tables(ctx, prog)
+        T.r_poly(ctx, prog)
+        F.r_ro_flow(ctx, prog, MAIN3)
+        F.r_nullslot(ctx, prog, MAIN3)
+        F.r_enc_loop(ctx, prog, MAIN3)
+        I.r_apiguard(ctx, prog, which=['of_build_repair_symbol', 'of_rs_build_repair_symbol', 'of_rs_2_m_build_repair_symbol',
+                                      'of_ldpc_staircase_build_repair_symbol'])
+        I.r_dispatch(ctx, prog, MAIN3, ['of_build_repair_symbol', 'of_set_fec_parameters'])
+        KN.r_kernel_shape(ctx, prog)
+        KN.r_kea(ctx, prog, list(range(0, 2 * KN.P + 9)), [0, 1, 2, 3, 4, 5, 7, 8, 9, 12, 13, 16, 20])
+    return dict(
+        explanation='R-TABLES + R-POLY: both RS codecs compute in the documented fields (precondition of byte-compatibility of codec 1 '
+        'and codec 2 with m=8). R-RO-FLOW: encoders never write a source buffer (only the repair slot being built). R-NULLSLOT: a NULL '
+        'output slot is replaced by a library allocation of the symbol length before anything is written through it. R-ENC-LOOP: the '
+        'output is zeroed and exactly the k scaled source symbols (RS) / the other entries of the equation (LDPC) are accumulated. '
+        'R-APIGUARD(build): k <= esi < n. R-KEA: the accumulation kernels are exact.',
+        decides=['fields; read-only sources; NULL-slot contract; accumulation structure; ESI range; kernel exactness'],
+        not_decided=['the generator coefficients (that RS repair symbols are the Vandermonde-systematic ones): value-level'])
+
+
+@prop('C07')
+def c07(ctx):
+    for prog in programs(ctx):
+        I.r_apiguard(ctx, prog)
+        I.r_layout(ctx, prog, MAIN3)
+        F.r_ro_flow(ctx, prog, MAIN3)
+        F.r_nullslot(ctx, prog, MAIN3)
+        MX.r_idx_guard(ctx, prog, None, floor=20)
+        O.r_uaf(ctx, prog, 'api')
+        O.r_dangling(ctx, prog, 'api')
+        O.r_freelist(ctx, prog)
+        CB.r_srcptr(ctx, prog, MAIN3)
+        KN.r_kernel_shape(ctx, prog)
+        if ctx.tier == 'thorough':
+            KN.r_kea(ctx, prog, list(range(0, 4 * KN.P + 1)), list(range(0, 21)))
+        else:
+            KN.r_kea(ctx, prog, list(range(0, 2 * KN.P + 9)), [0, 1, 2, 3, 4, 5, 7, 8, 9, 12, 13, 16, 20])
+    return dict(
+        explanation='R-APIGUARD: session/role/ESI/NULL tests dominate every table access of the dispatch layer and encoders. R-RO-FLOW: '
+        'no write sink (libc writers, XOR/GF kernels, writing callees through summaries) has a received symbol or an encoder source '
+        'as destination; RS decoding works on private copies. R-NULLSLOT. R-IDX-GUARD: guarded indices are strict and against the '
+        'allocated extent. R-UAF / R-DANGLING / R-FREELIST: no use of freed memory, no dangling member. R-LAYOUT: generic code reads '
+        'the members it thinks it reads. R-SRCPTR: exactly k pointers copied out. R-KEA: the kernels touch exactly [0, size).',
+        decides=['argument guards; read-only treatment of application buffers; guarded index bounds; use-after-free; kernel extents'],
+        not_decided=['bounds of accesses whose index is read out of the sparse matrix or an index table (they rest on data-structure '
+                     'invariants), heap layout, alignment traps'])
+
+
+@prop('C16')
+def c16(ctx):
+    for prog in programs(ctx):
+        I.r_layout(ctx, prog, [5])
+        I.r_dispatch(ctx, prog, [5])
+        I.r_apiguard(ctx, prog, which=['of_2d_parity_build_repair_symbol', 'of_decode_with_new_symbol', 'of_set_available_symbols',
+                                      'of_finish_decoding', 'of_build_repair_symbol'])
+        D.r_setavail(ctx, prog, [5], need_order=True)
+        D.r_complete(ctx, prog, [5])
+        D.r_dup(ctx, prog, [5])
+        CB.r_srcstore(ctx, prog, [5])
+        CB.r_srcptr(ctx, prog, [5])
+        F.r_nullslot(ctx, prog, [5])
+        F.r_enc_loop(ctx, prog, [5])
+        F.r_ro_flow(ctx, prog, [5])
+        F.r_2d_radix(ctx, prog)
+        O.r_own_field(ctx, prog, [5], helpers=False)
+        O.r_own_elem(ctx, prog, [5])
+    return dict(
+        explanation='For codec 5: R-LAYOUT (its control block matches the linear-binary view the generic decoders use), R-DISPATCH, '
+        'R-APIGUARD, R-SETAVAIL (bulk submission = per-symbol submissions, sources first), R-COMPLETE, R-DUP, R-SRCSTORE/R-SRCPTR, '
+        'R-NULLSLOT, R-ENC-LOOP (encoder satisfies each check: zeroed output plus every other entry of the equation), R-RO-FLOW, '
+        'R-OWN-FIELD/R-OWN-ELEM (released without leak), and R-2D-RADIX: in the matrix fill the column strides form a mixed radix, so '
+        'row checks and column checks each cover every source symbol exactly once, each check with its own repair column.',
+        decides=['interface structure of codec 5; product structure of the check matrix (each source in exactly one row check and one '
+                 'column check); encoder accumulates each check; release completeness'],
+        not_decided=['completeness of erasure recovery for every uniquely determined pattern (peeling + Gaussian elimination are '
+                     'value-level)', 'that the factorisation search accepts exactly the (k, n-k) it should'])
